@@ -641,8 +641,25 @@ class Sim:
             self.pctc_points = {self.rng.randrange(1, est) for _ in range(p.get('k', 1))}
             self.crit_steps = 0
             self._pct_low = 99
+        elif p['kind'] == 'rdv':
+            # rendezvous: every thread is parked when it first reaches one seeded container-access line of a
+            # cache-critical function; when nobody else can run they are released and alternate line by line
+            # for a seeded burst (check-then-act windows are a few lines wide: lockstep puts two threads inside
+            # the same window), then run sequentially until the next round
+            self.rdv_rounds = p.get('rounds', 1)
+            self._rdv_arm()
         elif p['kind'] == 'walk':
             self.countdown = self._geom(p['p'])
+
+    def _rdv_arm(self):
+        p = self.policy
+        self.rdv_phase = 0
+        self.rdv_target = None
+        self.rdv_seen = set()
+        self.rdv_n = self.rng.randrange(1, p.get('est', 60))
+        self.rdv_parked = set()
+        self.rdv_burst = p.get('burst', 200)
+        self.rdv_rounds -= 1
 
     def _geom(self, p):
         if p >= 1:
@@ -677,6 +694,9 @@ class Sim:
             return min(cands, key=lambda x: x.tid)
         if self.policy['kind'] in ('pct', 'pctc', 'pcta'):
             return max(cands, key=lambda x: x.prio)
+        if self.policy['kind'] == 'rdv' and self.rdv_phase == 0:
+            free = [c for c in cands if c.tid not in self.rdv_parked]
+            cands = free or cands
         return self.rng.choice(cands)
 
     def _pick_after_finish(self, t):
@@ -751,6 +771,34 @@ class Sim:
                     t.prio = self._pct_low
                     self._pct_low -= 1
             return max(self._runnable(), key=lambda x: x.prio)
+        if kind == 'rdv':
+            if self.rdv_phase == 0:
+                if code is not None and (code, line) in self.access:
+                    key = (code, line)
+                    if self.rdv_target is None and key not in self.rdv_seen:
+                        self.rdv_seen.add(key)
+                        if len(self.rdv_seen) == self.rdv_n:
+                            self.rdv_target = key
+                    if key == self.rdv_target:
+                        self.rdv_parked.add(t.tid)
+                if t.tid not in self.rdv_parked:
+                    return t
+                free = [x for x in self.threads if x.state == 'runnable' and x.tid not in self.rdv_parked]
+                if free:
+                    return self.rng.choice(free)
+                self.rdv_phase = 1
+            if self.rdv_phase == 1:
+                self.rdv_burst -= 1
+                if self.rdv_burst <= 0:
+                    if self.rdv_rounds > 0:
+                        self._rdv_arm()
+                    else:
+                        self.rdv_phase = 2
+                    return t
+                if self.rng.random() < p.get('alt', 1.0):
+                    others = [x for x in self.threads if x.state == 'runnable' and x is not t]
+                    return self.rng.choice(others) if others else t
+            return t
         if kind == 'seq':
             return t
         raise ValueError(kind)
